@@ -2,7 +2,9 @@
    element names" means, written from the property text as decidable checks over a
    [tables] value (they are closed by complete enumeration of Gen/Tables.v on every
    run).  Prop readings of the checks are proved in Proofs/C10_Sound.v. *)
-From MP Require Import Common.Base Model.Rule Spec.Attr.
+From MP Require Import Common.Base.
+From MP Require Import Model.Rule.
+From MP Require Import Spec.Attr.
 
 (** ** every element name resolves to a rule that exists *)
 Definition rules_exist (tb : tables) : bool :=
@@ -10,7 +12,7 @@ Definition rules_exist (tb : tables) : bool :=
 
 (** ** structural well-formedness of one rule *)
 Definition le_hib (k : nat) (hi : option nat) : bool :=
-  match hi with None => true | Some h => k <=? h end.
+  match hi with None => true | Some h => (k <=? h)%nat end.
 
 (** integer minimum not above maximum (or maximum unbounded), at every level *)
 Fixpoint bounds_ok (sp : spec) : bool :=
